@@ -1,5 +1,5 @@
 """C10 — a command that fails changes nothing."""
-from .. import common, framework, fndiff, cmdrun, gen, oracles
+from .. import common, framework, fndiff, cmdrun, gen, oracles, explore2
 from ..histories import run_history, fieldset, replay_trace, mode_of
 
 WEIGHTS = {"new_task": 26, "new_epic": 6, "set": 30, "claim": 6, "claim_oldest": 4, "sequence": 16, "sequence_rm": 3, "plan": 5,
@@ -36,10 +36,16 @@ def gen_fn(r, v, weights):
 
 
 def run(ctx):
+    import os
+    os.environ["GOGC"] = "1"      # stress the Go runtime: collections (and finalizers) inside every lock section
     framework.check_facts(ctx, ctx.facts, ["sections"])
     r = gen.Rng(ctx.seed * 1000003 + 10)
     for h in range(30 if ctx.quick else 500):
         run_history(ctx, r.fork(), 35, WEIGHTS, oracle, gen_fn=gen_fn)
+    # failure in the presence of another process: A parked before / inside / after its lock section, B holds the lock when A goes on
+    for i in range(5 if ctx.quick else 120):
+        explore2.explore(ctx, "C10", r.fork(), kindsA=(["claim_id", "set", "set+state", "new+state", "sequence"][i % 5],), kindsB=("new", "set", "claim_oldest"),
+                         b_modes=("hold", "complete"), max_points=(5 if ctx.quick else 40))
     ctx.cov["rule"] = ("seeded histories biased to failing commands (every validation class × command × multi-field shape); oracle: exit≠0 ⇒ log bytes and "
                        "observable graph identical; distinct = (command, outcome class, input mode, field set)")
 
